@@ -79,6 +79,80 @@ fn i2f_sweep<S: IntS + ToSample<f32> + ToSample<f64>>(ctx: &Ctx, tot: &Tot, dom:
     });
 }
 
+
+/// Rounding-decision lattice for wide integer sources: for every position p of the leading bit
+/// and both float mantissa widths (24, 53), magnitudes built as
+/// [mantissa pattern][round bit][middle bits down to the *other* format's cut][sticky bits],
+/// so that ties, near-ties and double-rounding traps (value within one f64 ulp of an f32
+/// midpoint) are all enumerated. Returned as mathematical values of the format.
+fn rounding_points(f: Fmt) -> Vec<i128> {
+    let bits = f.bits();
+    let mut mags: Vec<u128> = Vec::new();
+    let mant_pats = |w: u32| -> Vec<u128> {
+        // leading one + a few structured low parts of the kept mantissa
+        let top = 1u128 << (w - 1);
+        let mut v = vec![top, top | 1, top | 2, top | 3, (1u128 << w) - 1, (1u128 << w) - 2, top | (top >> 1), top | 0x55, top | 0xAA];
+        v.dedup();
+        v
+    };
+    for p in 0..bits {
+        for w in [24u32, 53] {
+            if p + 1 <= w {
+                continue; // fits the mantissa: no rounding
+            }
+            let below = p + 1 - w; // number of discarded bits
+            for m in mant_pats(w) {
+                let hi = m << below;
+                let round = 1u128 << (below - 1);
+                // sticky / middle patterns of the remaining below-1 bits
+                let rest_bits = below - 1;
+                let mut rests: Vec<u128> = vec![0];
+                if rest_bits > 0 {
+                    let ones = (1u128 << rest_bits) - 1;
+                    rests.extend([1, ones, ones - 1, 1u128 << (rest_bits - 1)]);
+                    // a lone sticky bit at every position (covers "just below the other format's cut")
+                    for k in 0..rest_bits {
+                        rests.push(1u128 << k);
+                        rests.push(ones ^ (1u128 << k));
+                    }
+                }
+                for rb in [0u128, round] {
+                    for r in &rests {
+                        mags.push(hi | rb | r);
+                    }
+                }
+            }
+        }
+    }
+    mags.sort();
+    mags.dedup();
+    let mut v = Vec::new();
+    for m in mags {
+        for a in [m as i128, -(m as i128)] {
+            let val = common::refmodel::from_amp(f, a);
+            if common::refmodel::in_range(f, val) {
+                v.push(val);
+            }
+        }
+    }
+    v
+}
+
+fn i2f_points<S: IntS + ToSample<f32> + ToSample<f64>>(ctx: &Ctx, tot: &Tot, pts: &[i128]) {
+    pts.par_chunks(1 << 14).for_each(|ch| {
+        guard::enter(&json!({"sys":"i2f","src":S::FMT.name(),"v":ch[0].to_string(),"note":"rounding lattice chunk"}).to_string());
+        for &v in ch {
+            if let Some(m) = i2f_single::<S>(v) {
+                ctx.violation(&format!("i2f.{}", S::FMT.name()), json!({"sys":"i2f","src":S::FMT.name(),"v":v.to_string()}), m, Some(&|| i2f_single::<S>(v)));
+                break;
+            }
+        }
+        tot.evals.fetch_add(2 * ch.len() as u64, Relaxed);
+        tot.distinct.fetch_add(ch.len() as u64, Relaxed);
+        guard::leave();
+    });
+}
+
 // ---------------------------------------------------------------- float -> int
 fn f2i_single<T: IntS + FromSample<f32> + FromSample<f64>>(x: f64, from32: bool) -> Option<String> {
     let exp = f64_to_int(T::FMT, x)?; // None: outside the documented domain
@@ -328,12 +402,19 @@ fn main() {
             d
         }
     };
+    let mut rounding_pts = 0usize;
     macro_rules! i2f {
         ($m:ident, $S:ty) => {
             i2f_sweep::<$S>(&ctx, &tot, &src_dom(<$S as IntS>::FMT.bits()));
+            if <$S as IntS>::FMT.bits() > 24 {
+                let pts = rounding_points(<$S as IntS>::FMT);
+                rounding_pts += pts.len();
+                i2f_points::<$S>(&ctx, &tot, &pts);
+            }
         };
     }
     for_int_fmts!(i2f);
+    ctx.set("rounding_lattice_points", json!(rounding_pts));
 
     // float -> int
     let p32 = f32_pieces(thorough);
@@ -383,7 +464,7 @@ fn main() {
     ctx.add_distinct_counted(tot.distinct.load(Relaxed));
     ctx.set("exhaustive", json!(false));
     ctx.set("exhaustive_scope", json!(if thorough { "complete: every value of the <=32-bit integer formats -> f32/f64, every f32 in [-1,1) -> 12 integer formats, every f32 -> f64, all rounding boundaries of f64 -> f32 around every finite f32; lattice: 48/64-bit integers, f64 sources" } else { "complete: <=24-bit integer formats -> floats and their truncation boundaries; lattices elsewhere (see rule)" }));
-    ctx.rule("int->float: every value of the source domain (complete <=24 bit; 32 bit complete in thorough, 2^20-top-pattern lattice in quick; 48/64 bit: all 2^18 (quick) / 2^26 (thorough) top-bit patterns x tie fills + boundaries) through to_sample::<f32/f64> vs integer round-to-nearest-even of amplitude/2^(bits-1); in [-1,1]; non-decreasing");
+    ctx.rule("int->float: every value of the source domain (complete <=24 bit; 32 bit complete in thorough, 2^20-top-pattern lattice in quick; 48/64 bit: all 2^18 (quick) / 2^26 (thorough) top-bit patterns x tie fills + boundaries) through to_sample::<f32/f64> vs integer round-to-nearest-even of amplitude/2^(bits-1); in [-1,1]; non-decreasing; plus, for every source wider than 24 bits, a rounding-decision lattice: every leading-bit position x both mantissa widths x structured mantissa patterns x round bit x middle/sticky patterns with a lone sticky bit at every position (ties, near-ties and double-rounding traps)");
     ctx.rule("float->int: f32 in [-1,1): every pattern (thorough) / every exponent x 2^12 top mantissa patterns x 8 fills + neighbourhoods (quick); f64: every exponent x 2^10 (quick) / 2^16 (thorough) top mantissa patterns x 8 fills x 2 signs; x 12 integer targets vs exact trunc(x*2^(bits-1)) re-offset; truncation boundaries v/2^(b-1) and both neighbours for every v of the <=24-bit (thorough: <=32-bit) formats, lattice for 48-bit; inverse law T(F(v))==v where the width fits the mantissa");
     ctx.rule("f32->f64: bit-level exact widening; f64->f32: around every enumerated f32 value v the doubles v, v+-1ulp, midpoint to the next f32, midpoint+-1ulp, next vs integer RNE; distinct_nontrivial = distinct outputs counted per piece");
     ctx.sample(json!({"sys":"i2f","src":"i32","v":"1073741825","meaning":"0x40000001: needs rounding to 24 bits -> 0.5"}));
